@@ -1,6 +1,6 @@
 """What MANIFEST.json says about each claimed property."""
 
-HOOK_COMMITS = ["34ba92b", "6392308"]
+HOOK_COMMITS = ["34ba92b", "6392308", "4d0deaa"]
 
 ENGINES = [
     dict(name="tlc", path="/usr/local/bin/tlc", kind_free_text="TLC 1.8.0 explicit-state model checker: exhaustive checking of the specifications in /verif/spec, simulation-mode behaviour generation, trace validation",
@@ -123,6 +123,53 @@ CHECKS.update({
                  "by TLC against the decoded pre-image (SyncTrace)"),
 })
 
+CHECKS.update({
+    "C13": dict(level="exploration", engine="tlc", design_ref="DESIGN.md 4/C13, 11", note=_API_NOTE + "  Thread interleavings of the "
+                "store's internal worker pools are whatever the configurations induce; they are sampled, not enumerated.",
+                text="NomtApi has no configuration parameter: by construction its results cannot depend on one.  Every TLC-generated "
+                     "behaviour is replayed under each point of a configuration matrix (commit workers 1..64, warm-up, cache sizes "
+                     "down to the minimum, I/O workers, table sizes, upper-level caching 0..3, pre-population; both hashers across "
+                     "runs) with the same concretisation; all runs must be accepted by ApiTrace for the same behaviour - identical "
+                     "values, roots (vs the reference trie), proof validity and witness verdicts.",
+                technique="TLA+ NomtApi model-checked with TLC; the same TLC-generated behaviours replayed under a configuration matrix "
+                          "and validated by TLC (ApiTrace)"),
+    "C15": dict(level="model_checking", engine="tlc", design_ref="DESIGN.md 4/C15, 11", note=_API_NOTE + "  Lock-level model exhaustive "
+                "for 2 threads x 4 calls and 3 threads x 2 calls; real schedules are sampled with seeded yield points.",
+                text="NomtConc (write-preferring access lock, root compare-and-swap under the exclusive lock, rollback worker pool) is "
+                     "model-checked incl. TLC's deadlock check: SnapshotReads, Exclusion, WritersSerialize, NoLostCommit; mutants that drop "
+                     "reader/writer exclusion or the root check produce counterexamples.  Seeded multi-threaded runs of the real store "
+                     "(2-6 threads; sessions, reads, blocking / non-blocking commits, rollbacks) are logged at linearisation points taken "
+                     "inside the store while the access lock is held; sorted by them the log must be a NomtApi behaviour (ApiTrace): every "
+                     "session view, every outcome, every finished root / witness and the final state.  A hang is a violation.",
+                technique="TLA+ NomtConc model-checked with TLC (incl. deadlock); linearised concurrent traces of the real store validated "
+                          "by TLC against NomtApi (ApiTrace)"),
+    "C16": dict(level="model_checking", engine="tlc", design_ref="DESIGN.md 4/C16, 11", note=_API_NOTE + "  The decoder "
+                "(harness/src/decode.rs) is written from the format code only and is validated by its own self-test (nvh decode --selftest).",
+                text="Alloc!Partition and Bitbox!ReachableOnce are model-checked; at every quiescent point of TLC-generated histories "
+                     "(also with hash tables barely larger than the page set) an independent decoder parses meta, free lists, branch and "
+                     "leaf nodes, overflow chains and the hash table and checks key order, separator bounds, single use of every page, "
+                     "probe reachability, every stored merkle node against the reference trie and elision consistency; ApiTrace requires "
+                     "the decoded map to equal the specification state and the structure to be well-formed in every state.",
+                technique="TLA+ Alloc/Bitbox/NomtApi model-checked with TLC; independent on-disk decoder observations validated by TLC in "
+                          "every trace state (ApiTrace)"),
+    "C19": dict(level="model_checking", engine="tlc", design_ref="DESIGN.md 4/C19, 11", note=_API_NOTE,
+                text="Alloc (copy-on-write page accounting with free-list pages) is model-checked: Partition and the Step relation; "
+                     "Bitbox!OccupancyTruthful is model-checked.  On traces with overflow-heavy and mixed-size value tables the decoder's "
+                     "snapshots must show no leaked page and a truthful occupancy in every state (ApiTrace), and consecutive snapshots "
+                     "of ln and bbn must be related by Alloc!Step (AllocTrace).",
+                technique="TLA+ Alloc/Bitbox model-checked with TLC; decoder snapshots validated by TLC as Alloc!Step transitions "
+                          "(AllocTrace) and in every trace state (ApiTrace)"),
+    "C20": dict(level="model_checking", engine="tlc", design_ref="DESIGN.md 4/C20, 11", note="Trusted: TLC; flock semantics of the "
+                "kernel on a local filesystem; directory content hashes taken before/after a refused attempt; H-io events of a closing "
+                "handle recorded after its unlock event count as late I/O.",
+                text="The Opener part of NomtConc (open / refused open / background writers / drain / unlock / kill) is model-checked: "
+                     "AtMostOneHandle, NobodyWritesUnlocked; the mutant that unlocks before draining produces a counterexample.  Scenarios "
+                     "with racing threads and child processes (refused while a handle lives, directory unchanged; free after drop, after a "
+                     "failed commit, after SIGKILL of a committing holder; no I/O after unlock) are logged and validated by LockTrace.",
+                technique="TLA+ NomtConc model-checked with TLC; multi-thread / multi-process lock scenarios of the real store validated "
+                          "by TLC (LockTrace)"),
+})
+
 _PENDING = "check under construction in this round; not claimed yet"
 NOT_APPLICABLE = {p: _PENDING for p in
-                  ["C13", "C15", "C16", "C19", "C20"]}
+                  []}
